@@ -25,6 +25,28 @@ Definition std_hash_allowlist : list string := ["src/serialize.rs"%string].
 Definition std_users_allowed : bool :=
   forallb (fun f => existsb (String.eqb f) std_hash_allowlist) std_hash_users.
 
+(** the bridge crate already imports hashbrown / indexmap containers with their default (seeded)
+    hasher at these sites; the run comparison shows no observable effect today. They are
+    allow-listed WITH THEIR COUNT: a new site anywhere changes this fact. *)
+Definition default_hasher_allowlist : list (string * nat) :=
+  [("egglog-bridge/src/lib.rs"%string, 4); ("egglog-bridge/src/macros.rs"%string, 1);
+   ("egglog-bridge/src/rule.rs"%string, 1)].
+
+Definition site_eqb (a b : string * nat) : bool :=
+  andb (String.eqb (fst a) (fst b)) (Nat.eqb (snd a) (snd b)).
+
+Fixpoint sites_eqb (l1 l2 : list (string * nat)) : bool :=
+  match l1, l2 with
+  | [], [] => true
+  | a :: t1, b :: t2 => andb (site_eqb a b) (sites_eqb t1 t2)
+  | _, _ => false
+  end.
+
+Definition default_sites_allowed : bool := sites_eqb default_hasher_sites default_hasher_allowlist.
+
+Lemma default_sites_allowed_true : default_sites_allowed = true.
+Proof. vm_compute. reflexivity. Qed.
+
 Lemma aliases_fixed_true : aliases_fixed = true.
 Proof. vm_compute. reflexivity. Qed.
 
